@@ -55,6 +55,15 @@ func solveAll(obls []*Obligation, timeoutS int, all bool, seed int) []SolveResul
 			defer wg.Done()
 			defer func() { <-sem }()
 			res[i] = Solve(o.Query(seed), timeoutS, all, o.Probes)
+			if !o.ExpectSat && res[i].Status != "unsat" && res[i].Status != "sat" && res[i].Status != "error" {
+				// undecided: look for a candidate counterexample without the quantified loop frames
+				r2 := Solve(o.RelaxedQuery(seed), 10, false, o.Probes)
+				if r2.Status == "sat" {
+					res[i].Model = r2.Model
+					res[i].Raw = "full query: " + res[i].Status + "; candidate model from the query without quantified loop-frame facts (" + r2.Solver + "):\n" + r2.Raw
+					res[i].Relaxed = true
+				}
+			}
 		}(i, o)
 	}
 	wg.Wait()
